@@ -215,6 +215,10 @@ class Run:
         self.spec = importlib.import_module("props." + pid).SPEC
         self.dir = os.path.join(BUILD, pid)
         os.makedirs(self.dir, exist_ok=True)
+        # shard directories of earlier (possibly larger, boosted) runs are dead weight
+        for old in os.listdir(self.dir):
+            if old.startswith("shard"):
+                shutil.rmtree(os.path.join(self.dir, old), ignore_errors=True)
         self.log = []
         self.obligations = 0
         self.discharged = 0
